@@ -42,7 +42,19 @@ AttrCases == {[kind |-> "attr", code |-> 0, name |-> a[1], dir |-> 0, enc |-> x,
                      n \in {"x-custom", "y-custom", "Arbitrary Attribute", "", "x-"}, t \in TtlvTypes, x \in Encodings}
              \* names that differ from a standard one only by letter case are NOT standard attributes
              \cup {[kind |-> "attr", code |-> t, name |-> a[1], dir |-> 1, enc |-> x, expect |-> "opaque"] : a \in PinAttrs, t \in {2, 7}, x \in {"ttlv"}}
-Cases == OpCases \cup ObjCases \cup AttrCases
+\* where the type of a carried object comes from: the payload's Object Type field (Get / Export responses, Register request) or, when the
+\* payload has no such field, the "Object Type" attribute (Import request).  An attribute next to a field never overrides the field.
+\* field / attr / content are object type codes (0: absent); 127 is not an object type.
+ObjCodes == {Pinned.objecttype_enum[i][1] : i \in Idx(Pinned.objecttype_enum)}
+Carriers == {"get-response", "register-request", "export-response", "import-request"}
+HasField(k) == k # "import-request"
+HasAttrs(k) == k \in {"export-response", "import-request", "register-request"}
+Governing(k, f, a) == IF HasField(k) THEN f ELSE a
+SrcExpect(k, f, a, content) == LET g == Governing(k, f, a) IN IF g \in ObjCodes /\ content = g THEN "typed" ELSE "error"
+ObjSrcCases == {[kind |-> "objsrc", carrier |-> k, field |-> f, attr |-> a, content |-> ct, code |-> Governing(k, f, a), name |-> "", dir |-> 0, enc |-> x,
+                 expect |-> SrcExpect(k, f, a, ct)] :
+                  k \in Carriers, f \in {2, 4, 7, 127}, a \in {0, 2, 3, 7}, ct \in {2, 3, 4, 7}, x \in Encodings}
+Cases == OpCases \cup ObjCases \cup AttrCases \cup {o \in ObjSrcCases : (HasField(o.carrier) \/ o.field = 2) /\ (HasAttrs(o.carrier) \/ o.attr = 0) /\ o.content \in {o.field, o.attr}}
 Init == c \in Cases
 Next == UNCHANGED c
 Spec == Init /\ [][Next]_c
